@@ -194,8 +194,14 @@ class Lattice(object):
 
         class D(B, C):
             pass
-        self.cls = {'A': A, 'B': B, 'C': C, 'D': D, 'Int': int, 'Any': object, 'BC': (B, C)}
-        self.val = {'A': A(), 'B': B(), 'C': C(), 'D': D(), 'Int': 7, 'Null': None}
+
+        class E(B):
+            pass
+
+        class V(E, C):
+            pass
+        self.cls = {'A': A, 'B': B, 'C': C, 'D': D, 'Int': int, 'Any': object, 'BC': (B, C), 'E': E, 'V': V}
+        self.val = {'A': A(), 'B': B(), 'C': C(), 'D': D(), 'Int': 7, 'Null': None, 'E': E(), 'V': V()}
 
 
 LAT = None
@@ -245,7 +251,7 @@ def build_fd(o, ran):
     key = ', '.join(sig)
     if key not in _PAYLOADS:
         env = {'_TAG_OF': _TAG_OF, '_RAN': []}
-        for t in TYPES:
+        for t in TYPES + ['E', 'V']:
             env['_DEF_' + t] = lat.val['A' if t == 'Any' else 'B' if t == 'BC' else t]
         src = 'def payload(%s):\n    _t = _TAG_OF[id(fd__)]\n    _t[1].append(_t[0])\n    return _t[0]\n' % key
         exec(src, env)
@@ -480,9 +486,17 @@ def families_for(tier, seed, c06=False):
     return fams
 
 
-def gen(rep, wd, fams, tier, invs=(), name='G'):
+# families over the mixin classes E and V: specificity that is not transitive
+MIXIN = [
+    [L([O('f1', [P('x', 'B'), P('y', 'D')]), O('f2', [P('x', 'C'), P('y', 'B')]), O('f3', [P('x', 'E'), P('y', 'A')])])],
+    [L([O('f1', [P('x', 'B'), P('y', 'D')]), O('f2', [P('x', 'C'), P('y', 'B')]), O('f3', [P('x', 'E'), P('y', 'A')]), O('top', [P('x', 'V'), P('y', 'D')])])],
+    [L([O('f1', [P('x', 'B'), P('y', 'D')], me=True), O('f2', [P('x', 'C'), P('y', 'B')], me=True), O('f3', [P('x', 'E'), P('y', 'A')], me=True)])],
+]
+
+
+def gen(rep, wd, fams, tier, invs=(), name='G', vals=None):
     quick = tier == 'quick'
-    vals = ['B', 'C', 'D', 'Int', 'Null'] if quick else VALS
+    vals = vals or (['B', 'C', 'D', 'Int', 'Null'] if quick else VALS)
     mod = mc_module(fams, vals, 2, 7 if quick else 5, kw2=not quick)
     cfg = 'SPECIFICATION Spec\n' + ''.join('INVARIANT %s\n' % i for i in invs)
     dump = os.path.join(wd, name)
@@ -508,12 +522,19 @@ def run(rep, tier, seed, keep=False, c06=False):
             if os.path.exists(d2):
                 os.remove(d2)
         runner = Runner()
-        fam_cache = {}
         n = 0
         multi = 0
-        for st in tlaval.parse_dump(dump):
+        jobs = [(dump, fams, 0)]
+        # a second, small job over the mixin classes (values V, D, B only): "more specific" is not transitive there
+        r3, d3 = gen(rep, wd, MIXIN, tier, invs, name='mixin', vals=['V', 'D', 'B'])
+        tlc.ok(r3)
+        rep.tlc('Resolution/G mixin families x calls (+M invariants)', r3)
+        jobs.append((d3, MIXIN, 100000))
+        for dump_, fams_, off in jobs:
+          fam_cache = {}
+          for st in tlaval.parse_dump(dump_):
             fi = st['fam']
-            family = fams[fi - 1]
+            family = fams_[fi - 1]
             call = to_py_call(st['call'])
             out = st['out']
             orders = None
@@ -524,13 +545,16 @@ def run(rep, tier, seed, keep=False, c06=False):
                     continue
                 per_layer = [list(itertools.permutations(range(s))) for s in sizes]
                 orders = list(itertools.islice(itertools.product(*per_layer), 12 if tier == 'quick' else 36))
-            check_case(rep, runner, fam_cache, fi, family, call, out, label, orders)
+                if off:
+                    orders = list(itertools.islice(itertools.product(*per_layer), 24))      # (all 6 or 24 orders of the one layer)
+            check_case(rep, runner, fam_cache, fi + off, family, call, out, label, orders)
             n += 1
             rep.evaluations += len(orders) if orders else 1
             if out['res'] in ('run', 'Ambiguous'):
                 multi += 1
             if n % 2503 == 1:
                 rep.sample({'family': _fam_short(family), 'call': render_call(call)[0], 'outcome': dict(out)})
+        os.remove(d3)
         os.remove(dump)
         rep.traces += n
         rep.nontrivial = multi
